@@ -66,7 +66,9 @@ def show_canon(c):
     if not isinstance(c, list) or not c:
         return repr(c)
     t = c[0]
-    if t in ("int", "str", "bool", "NoneType"):
+    if t == "str":
+        return ascii(c[1])      # code points outside ASCII by number: two strings that look alike stay apart
+    if t in ("int", "bool", "NoneType"):
         return repr(c[1])
     if t == "float":
         return c[1]
